@@ -6,6 +6,7 @@ CONSTANTS
   EmitStep = FALSE
   Heights = {1}
   Rounds = {0}
+  Stages = {1, 3}
   Facts = {"A"}
   ExSets = {{}}
   AllowSC = FALSE
@@ -16,6 +17,7 @@ CONSTANTS
   StoreSC = "sf-"
   CleanSC = "sf-"
   CountRule = "sound"
+  EagerCount = FALSE
 CONSTRAINT HighWater
 POSTCONDITION Accepted
 CHECK_DEADLOCK FALSE
